@@ -228,6 +228,9 @@ func (r *Transport) writeLoop() {
 					if reconnectErr := r.reconnect(tr); reconnectErr != nil {
 						r.mu.Unlock()
 						writeOrDone(r.ctx, writeRes{err: fmt.Errorf("reconnect cause[%v]: %w", err, reconnectErr)}, r.writeResCh[data.id])
+						// the redial budget is exhausted and nobody serves writeReqCh any more:
+						// close the transport so that pending and later writes fail instead of blocking.
+						r.cancel()
 						return
 					}
 					r.mu.Unlock()
